@@ -944,7 +944,8 @@ impl DefaultFunction {
                     })
                     .collect();
 
-                let i: u64 = i.try_into().unwrap();
+                // Constructor indices are limited to u64 by the Data representation: fail, don't panic.
+                let i: u64 = i.try_into().map_err(|_| Error::OverflowError)?;
 
                 let constr_data = Data::constr(i, data_list);
 
